@@ -147,7 +147,7 @@ Record rmsg : Type := mk_rmsg { rm_fmt : N; rm_cid : N; rm_type : N; rm_ts : N; 
 
 Definition EXT : N := Z.to_N rtmp_extendedTimestamp.
 Definition DEFCHUNK : N := Z.to_N rtmp_defaultChunkSize.
-Definition hdr_size (fmt : N) : N := Z.to_N (nth (N.to_nat fmt) rtmp_messageHeaderSizes 0%Z).
+Definition hdr_size (fmt : N) : N := Z.to_N (nth (N.to_nat fmt) rtmp_tbl_message_header_sizes 0%Z).
 
 (* readBasicHeader: one byte, a second one for the 2-byte form (cid 64..319), a third one
    for the 3-byte form -- each a binary.Read of a uint8 *)
